@@ -139,6 +139,8 @@ pub struct TypeStat {
     pub first_must_ord: Option<u64>,
     pub first_may_ord: Option<u64>,
     pub first_may: Option<(u64, H256)>,
+    /// every open-typed occurrence: (global output ordinal, (height, txid))
+    pub may_positions: Vec<(u64, (u64, H256))>,
 }
 
 pub fn base_reward(height: u64) -> u64 {
@@ -151,6 +153,12 @@ pub fn base_reward(height: u64) -> u64 {
 }
 
 pub fn stats(coin: Coin, range: Range) -> Stats {
+    stats_with_open(coin, range, &|_| false)
+}
+
+/// like `stats`, but outputs whose script satisfies `open` are treated as having any type
+/// (used by C14: figures derived from a hostile field are not pinned down)
+pub fn stats_with_open(coin: Coin, range: Range, open: &dyn Fn(&[u8]) -> bool) -> Stats {
     let mut st = Stats::default();
     let mut last_ts: Option<u32> = None;
     let mut ord: u64 = 0;
@@ -169,7 +177,17 @@ pub fn stats(coin: Coin, range: Range) -> Stats {
             let mut v: u128 = 0;
             for o in &tx.outputs {
                 v += o.value as u128;
-                let types = cache.entry(o.script.clone()).or_insert_with(|| expect_for(coin, &o.script).types).clone();
+                let types = cache
+                    .entry(o.script.clone())
+                    .or_insert_with(|| {
+                        if open(&o.script) {
+                            use SType::*;
+                            vec![OpReturn, Unspendable, P2PK, P2PKH, P2SH, P2WPKH, P2WSH, P2TR, WitnessProgram, Multisig, NotRecognised]
+                        } else {
+                            expect_for(coin, &o.script).types
+                        }
+                    })
+                    .clone();
                 if types.len() == 1 {
                     let e = st.types.entry(types[0]).or_default();
                     e.must += 1;
@@ -182,6 +200,7 @@ pub fn stats(coin: Coin, range: Range) -> Stats {
                     for t in types {
                         let e = st.types.entry(t).or_default();
                         e.may += 1;
+                        e.may_positions.push((ord, (*h, txid)));
                         if e.first_may.is_none() {
                             e.first_may = Some((*h, txid));
                             e.first_may_ord = Some(ord);
